@@ -412,5 +412,56 @@ def r15_8(ctx):
                  "resets the whole configuration, a number raises TypeError", h.loc(early[0])) if early else ctx.ok(construct, h.loc(tests[0])))
 
 
+def r15_9(ctx):
+    """R15.9 (a) only the end of input ends the server: the loop's `break` test is applied to the raw result of
+    sys.stdin.readline() (a blank or whitespace-only line is a malformed request that gets an error reply, not EOF);
+    (b) the stderr routing survives the replacement of the logger: CachingLog.__init__ restores the previous logger's
+    `_info_stream` *after* the base initialiser ran (which resets it) - otherwise every library note of a request is
+    printed on stdout between the replies; (c) a float literal that overflows is refused like any other invalid value
+    (is_float: float() + math.isfinite()), otherwise the reply carries the non-JSON token `Infinity`."""
+    from .common import float_validator_shape
+    repo = ctx.repo
+    f = repo.func(f"{KS}:run_server")
+    ctx.analysed(f.qual)
+    res = Resolver(f.node)
+    loops = [n for n in ast.walk(f.node) if isinstance(n, ast.While)]
+    construct = "run_server/the request loop ends only on end of input"
+    verdict = None
+    for lp in loops:
+        for st in lp.body:
+            if isinstance(st, ast.If) and any(isinstance(x, ast.Break) for x in st.body):
+                t = st.test
+                if isinstance(t, ast.UnaryOp) and isinstance(t.op, ast.Not) and isinstance(t.operand, ast.Name):
+                    asg = [a for a in lp.body if isinstance(a, ast.Assign) and any(isinstance(tt, ast.Name) and tt.id == t.operand.id for tt in a.targets)]
+                    src = ast.unparse(asg[0].value) if asg else "?"
+                    verdict = (src == "sys.stdin.readline()", src, st)
+                elif "readline()" in ast.unparse(res.resolve(t)):
+                    src = ast.unparse(res.resolve(t))
+                    verdict = (src == "not sys.stdin.readline()", src, st)
+    if verdict is None:
+        raise AnalysisError("run_server: EOF test of the request loop not found")
+    (ctx.ok(construct, f.loc(verdict[2])) if verdict[0] else
+     ctx.bad(construct, f"the loop is left when `{verdict[1]}` is empty: a blank line ends the server without a reply and all later requests go unanswered",
+             f.loc(verdict[2])))
+    c = repo.func("esp_kconfiglib.report:CachingLog.__init__")
+    ctx.analysed(c.qual)
+
+    def ev(n):
+        if isinstance(n, (ast.If, ast.For, ast.While, ast.With, ast.Try)):
+            return []
+        return ["super"] if any(isinstance(x, ast.Call) and ast.unparse(x.func) == "super().__init__" for x in ast.walk(n)) else []
+
+    fl = Flow(c.node, resolver=Resolver(c.node), events=ev).run()
+    stores = [n for n in ast.walk(c.node) if isinstance(n, ast.Assign) and any(ast.unparse(t) == "self._info_stream" for t in n.targets)]
+    construct = "CachingLog.__init__/the inherited info stream is restored after the base initialiser"
+    if not stores:
+        ctx.bad(construct, "the previous logger's _info_stream is no longer carried over: notes go to stdout", c.loc())
+    else:
+        early = [n for n in stores if "super" not in (fl.events_at(n) or set())]
+        (ctx.bad(construct, "`self._info_stream` is assigned before super().__init__(), which resets it: library notes are printed on stdout, "
+                 "between the JSON replies", c.loc(early[0])) if early else ctx.ok(construct, c.loc(stores[0])))
+    float_validator_shape(ctx)
+
+
 def rules():
-    return [("R15.7", r15_7, 1), ("R15.1", r15_1, 4), ("R15.2", r15_2, 2), ("R15.3", r15_3, 3), ("R15.4", r15_4, 2), ("R15.5", r15_5, 3), ("R15.6", r15_6, 2), ("R15.8", r15_8, 6)]
+    return [("R15.9", r15_9, 4), ("R15.7", r15_7, 1), ("R15.1", r15_1, 4), ("R15.2", r15_2, 2), ("R15.3", r15_3, 3), ("R15.4", r15_4, 2), ("R15.5", r15_5, 3), ("R15.6", r15_6, 2), ("R15.8", r15_8, 6)]
